@@ -24,6 +24,7 @@ func Aliens() []*Node {
 		Set(), Set(Str("a")),
 		Prim(Context, 0, nil), Prim(Context, 0, []byte("abc")), Prim(Context, 1, []byte{1}), Prim(Context, 7, []byte("cn")),
 		Cons(Context, 0), Cons(Context, 0, Int(1)), Cons(Context, 3, Str("a")), Cons(Context, 0, Cons(Context, 0)),
+		Cons(Context, 3), Prim(Context, 3, nil), Prim(Context, 3, []byte("x")), Cons(Context, 3, Cons(Context, 3)),
 		Cons(Application, 0), Prim(Application, 2, nil), Prim(Application, 10, []byte("x")), Cons(Application, 3, Str("a")),
 		Cons(Universal, TagOctetString, Str("a")),
 		Prim(Context, 31, []byte("x")), Cons(Context, 1000), Prim(Private, 1, []byte("x")), Cons(Private, 2, Int(1)),
